@@ -13,7 +13,7 @@ import Proofs.Lemmas.C12Dist
 import Proofs.Lemmas.C12Pct
 import Proofs.Lemmas.C12Bisect
 import Proofs.Lemmas.C12Lentz
-import Proofs.Lemmas.C12F64
+import Proofs.Lemmas.C12F64c
 import Model.Stats.TTest
 
 namespace C12
@@ -328,57 +328,90 @@ theorem percentile_unsorted (xs : List ℚ) (p : ℚ) (hp : 0 < p ∧ p < 1) :
 section FloatPct
 open F64
 
-/-- **percentile_float_bounded_partial** — float64 instance, positive finite data: for finite
-positive floats a ≤ b, a float d ≥ 0 standing for the computed difference `b - a` with
-val a + val d ≤ val b (i.e. the subtraction was exact or rounded DOWN) and a fraction 0 ≤ frac ≤ 1,
-the interpolated value `a + frac*d` as computed in float64 (round-to-nearest-even at each of the
-two operations) lies in [a, b].  The lower bound a ≤ result needs no hypothesis on d.
-GAP (why `_partial`): when `b - a` is rounded UP the bound still holds, because frac < 1 makes
-fl(frac·d) ≤ pred(d) ≤ b − a (argument in notes/C12.md §7), but that step needs the spacing of
-adjacent floats, which the shared lemma library does not provide; it is checked by kernel
-evaluation on instances below and by the S layer (`pbound`) on every generated sample. -/
-theorem percentile_float_bounded_partial (a b frac d : Bits) (ha : PosFin a) (hb : PosFin b)
-    (hab : a.toNat ≤ b.toNat) (hd : NonNegFin d) (hf : NonNegFin frac) (hf1 : val frac ≤ 1) :
-    a.toNat ≤ (add a (mul frac d)).toNat ∧
-    (val a + val d ≤ val b → (add a (mul frac d)).toNat ≤ b.toNat) := by
-  rcases hf with hf0 | hfp
-  · have hm := mul_nonNeg_zero frac d (Or.inl hf0) hd (Or.inl hf0)
-    rw [hm, add_posZero a ha]
-    exact ⟨le_refl _, fun _ => hab⟩
-  · rcases hd with hd0 | hdp
-    · have hm := mul_nonNeg_zero frac d (Or.inr hfp) (Or.inl hd0) (Or.inr hd0)
-      rw [hm, add_posZero a ha]
-      exact ⟨le_refl _, fun _ => hab⟩
-    · obtain ⟨hle, hnn⟩ := mul_le_of_val_le_one frac d hfp hdp hf1
-      refine ⟨le_add_nonNeg a _ ha hnn, fun hv => ?_⟩
-      apply add_le_of_val_le a _ b ha hnn hb hab
-      have : val (mul frac d) ≤ val d := val_mono _ _ hdp.lt63 hle
-      linarith
+/-- **percentile_float_bounded** — FULL, float64 instance, any signs: for finite floats a ≤ b whose
+difference `b - a` does not overflow (spread < MaxFloat64: the complement of finding N12c) and any
+finite fraction 0 ≤ frac < 1, the value of `a + frac*(b - a)` as computed in float64 (three
+round-to-nearest-even operations) satisfies a ≤ result ≤ b and is not NaN — also when `b - a` is
+rounded UP: then frac ≤ 1 − 2^-53 pushes the rounded product onto the float below R(b−a), which is
+≤ b − a (`F64.round_mul_le`). -/
+theorem percentile_float_bounded (a b frac : Bits) (ha : isFinite a = true) (hb : isFinite b = true)
+    (hab : sval a ≤ sval b) (hov : isFinite (sub b a) = true) (hfr : isFinite frac = true)
+    (hf0 : 0 ≤ sval frac) (hf1 : sval frac < 1) :
+    F64.le a (add a (mul frac (sub b a))) = true ∧ F64.le (add a (mul frac (sub b a))) b = true := by
+  obtain ⟨h1, h2, h3⟩ := interp_bounded a b frac ha hb hab hov hfr hf0 hf1
+  exact ⟨(le_iff_sval _ _ (isNaN_of_finite ha) h3).mpr h1, (le_iff_sval _ _ h3 (isNaN_of_finite hb)).mpr h2⟩
 
-/-- **percentile_float_interp** — the same on the expression the code evaluates,
-`Xs[k-1] + frac*(Xs[k]-Xs[k-1])`, for finite positive floats a < b: the computed difference is
-the correctly rounded b − a (a non-negative finite float ≤ b), the result is ≥ a (FULL), and it is
-≤ b whenever the difference was not rounded up (PARTIAL, same gap as above). -/
-theorem percentile_float_interp (a b frac : Bits) (ha : PosFin a) (hb : PosFin b)
-    (hlt : val a < val b) (hf : NonNegFin frac) (hf1 : val frac ≤ 1) :
-    NonNegFin (sub b a) ∧
-    a.toNat ≤ (add a (mul frac (sub b a))).toNat ∧
-    (val (sub b a) ≤ val b - val a → (add a (mul frac (sub b a))).toNat ≤ b.toNat) := by
-  obtain ⟨n, d, hn, hd, he, hv⟩ := sub_posFin_val b a hb ha hlt
-  have hdb : (sub b a).toNat ≤ b.toNat := by
-    rw [he]
-    apply roundMag_le_of_le_val n d hn hd b hb
-    rw [hv]; linarith [val_pos ha]
-  have hnn := nonNegFin_of_le _ b hb hdb
-  have hab : a.toNat ≤ b.toNat := by
-    by_contra hc
-    have := val_mono b a ha.lt63 (by omega)
-    linarith
-  obtain ⟨lo, hi⟩ := percentile_float_bounded_partial a b frac (sub b a) ha hb hab hnn hf hf1
-  exact ⟨hnn, lo, fun h => hi (by linarith)⟩
+/-- **percentile_float_within_min_max** — the float64 instance of the model of the interpolation in
+`Sample.Percentile` (`Descr.interp`: position 1/3 + p(N+1/3), `Modf`, clamps, interpolation): for
+every ascending list of finite floats (any signs) whose adjacent differences do not overflow and
+EVERY float p (NaN, ±Inf included) the result lies between xs[0] and xs[N−1] and is not NaN. -/
+theorem percentile_float_within_min_max (xs : List Stats.Fl) (hne : 0 < xs.length)
+    (hs : FloatSorted xs) (p : Stats.Fl) :
+    F64.le (xs.getD 0 ⟨posZero⟩).bits (Stats.Descr.interp xs p).bits = true ∧
+    F64.le (Stats.Descr.interp xs p).bits (xs.getD (xs.length - 1) ⟨posZero⟩).bits = true := by
+  obtain ⟨h1, h2, h3⟩ := interp_float_within xs hne hs p
+  exact ⟨(le_iff_sval _ _ (isNaN_of_finite (hs.fin 0 hne)) h3).mpr h1,
+    (le_iff_sval _ _ h3 (isNaN_of_finite (hs.fin _ (by omega)))).mpr h2⟩
 
-/-- instances of the GAP case by kernel evaluation: `b - a` rounds up, frac = 1 − 2^-53 (the
-largest float below 1), and the float64 result is still ≤ b -/
+/-- `Sample.Bounds` of a non-empty sample flagged sorted, for any number type -/
+theorem sampleBounds_sorted_gen {α : Type} [Stats.Arith α] (xs : List α) (d : α) (hne : xs ≠ []) :
+    Stats.Descr.sampleBounds xs true = some (xs.getD 0 d, xs.getD (xs.length - 1) d) := by
+  cases xs with
+  | nil => exact absurd rfl hne
+  | cons x t =>
+    simp only [Stats.Descr.sampleBounds, if_true, List.getD_cons_zero, List.length_cons,
+      Nat.add_sub_cancel]
+    congr 2
+    rw [List.getLastD_eq_getLast?, List.getLast?_eq_getElem?, List.getD_eq_getElem?_getD]
+    simp
+
+/-- **percentile_float_sorted** — the float64 instance of `Sample.Percentile` on a sample flagged
+sorted (ascending finite floats of any signs, adjacent differences not overflowing): for EVERY
+float p the result is a number between the first and the last element (clamps p ≤ 0, p ≥ 1, NaN p
+included). -/
+theorem percentile_float_sorted (xs : List Stats.Fl) (hne : xs ≠ []) (hs : FloatSorted xs)
+    (p : Stats.Fl) :
+    ∃ v, Stats.Descr.percentile xs true p = some v ∧
+      F64.le (xs.getD 0 ⟨posZero⟩).bits v.bits = true ∧
+      F64.le v.bits (xs.getD (xs.length - 1) ⟨posZero⟩).bits = true := by
+  have hl : 0 < xs.length := List.length_pos_iff.mpr hne
+  have he : xs.isEmpty = false := by cases xs <;> simp_all
+  have f0 := isNaN_of_finite (hs.fin 0 hl)
+  have fl := isNaN_of_finite (hs.fin (xs.length - 1) (by omega))
+  have h0l : F64.le (xs.getD 0 ⟨posZero⟩).bits (xs.getD (xs.length - 1) ⟨posZero⟩).bits = true :=
+    (le_iff_sval _ _ f0 fl).mpr (hs.sorted 0 _ (Nat.zero_le _) (by omega))
+  have r0 : F64.le (xs.getD 0 ⟨posZero⟩).bits (xs.getD 0 ⟨posZero⟩).bits = true :=
+    (le_iff_sval _ _ f0 f0).mpr (le_refl _)
+  have rl : F64.le (xs.getD (xs.length - 1) ⟨posZero⟩).bits (xs.getD (xs.length - 1) ⟨posZero⟩).bits = true :=
+    (le_iff_sval _ _ fl fl).mpr (le_refl _)
+  unfold Stats.Descr.percentile
+  simp only [he, Bool.false_eq_true, if_false, sampleBounds_sorted_gen xs ⟨posZero⟩ hne,
+    Option.map_some, if_true]
+  split
+  · exact ⟨_, rfl, r0, h0l⟩
+  · split
+    · exact ⟨_, rfl, h0l, rl⟩
+    · exact ⟨_, rfl, percentile_float_within_min_max xs hl hs p⟩
+
+/-- a non-trivial instance of the hypotheses: −3, 0.1, 10 -/
+example : FloatSorted [⟨0xC008000000000000⟩, ⟨0x3FB999999999999A⟩, ⟨0x4024000000000000⟩] := by
+  have key : ∀ i j : Fin 3, i ≤ j →
+      F64.le ([(⟨0xC008000000000000⟩ : Stats.Fl), ⟨0x3FB999999999999A⟩, ⟨0x4024000000000000⟩].getD i ⟨posZero⟩).bits
+        ([(⟨0xC008000000000000⟩ : Stats.Fl), ⟨0x3FB999999999999A⟩, ⟨0x4024000000000000⟩].getD j ⟨posZero⟩).bits = true := by
+    decide +kernel
+  have fin : ∀ i : Fin 3, isFinite
+      ([(⟨0xC008000000000000⟩ : Stats.Fl), ⟨0x3FB999999999999A⟩, ⟨0x4024000000000000⟩].getD i ⟨posZero⟩).bits = true := by
+    decide +kernel
+  refine ⟨fun i hi => fin ⟨i, hi⟩, ?_, ?_⟩
+  · intro i j hij hj
+    have := key ⟨i, by simp at hj; omega⟩ ⟨j, hj⟩ hij
+    rwa [le_iff_sval _ _ (isNaN_of_finite (fin ⟨i, by simp at hj; omega⟩)) (isNaN_of_finite (fin ⟨j, hj⟩))] at this
+  · intro i hi
+    have hi' : i = 0 ∨ i = 1 := by simp at hi; omega
+    rcases hi' with rfl | rfl <;> decide +kernel
+
+/-- instances of the rounded-up case by kernel evaluation (now covered by the theorem): `b - a`
+rounds up, frac = 1 − 2^-53 (the largest float below 1), and the float64 result is still ≤ b -/
 example :
     let a : Bits := 0x3fc24e7fc36a8b62; let b : Bits := 0x40057b8a009ecc70
     sub b a = 0x400456a2046823ba ∧
